@@ -32,8 +32,8 @@ func (c *Ctx) ecmaAnalysis() (*pta.Analysis, *ssa.Function) {
 			roots[i] = pta.RootSpec{Name: "bs", Levels: 4}
 		case ssau.TypeIs(p.Type(), prog.Abs("core"), "StepProps"):
 			roots[i] = pta.RootSpec{Name: "props", Levels: 3}
-		case p.Name() == "src" || p.Name() == "compiled":
-			roots[i] = pta.RootSpec{Name: p.Name(), Levels: 2}
+		case i >= 4:
+			roots[i] = pta.RootSpec{Name: fmt.Sprintf("code%d", i), Levels: 2}
 		}
 	}
 	if _, ok := a2has(roots, "bs"); !ok {
